@@ -42,6 +42,8 @@ type ListInput struct {
 	Items    []itemJ  `json:"items,omitempty"`
 	Lines    []B      `json:"lines_hex"`
 	CRLF     bool     `json:"crlf,omitempty"`
+	// round 5: the script is named by a recipe line "addfiles <path with white space inside>" (r5_proc_recipe.go)
+	Via *procViaJ `json:"via_recipe,omitempty"`
 }
 
 func materialize(root string, tree []TEntry) {
@@ -662,6 +664,9 @@ func genProc(r *rng.R) Input {
 func runProc(in Input) *common.Case {
 	ensureProcRoot()
 	li := in.List
+	if li.Via != nil {
+		return runProcVia(in)
+	}
 	lines := common.Ss(li.Lines)
 	desc := map[string]interface{}{"input": in, "lines": lines}
 	c := &common.Case{Desc: desc}
